@@ -71,7 +71,9 @@ CLAIMS = [
                       "before publishing; AnalysisTask::run's cancellation table is exact.",
         "level_note": "Interleavings are NOT explored (that is model checking / stress, a different family): absence of deadlock and of "
                       "mixed-revision results is argued from lock order and scope only. Known finding F6 (pending slot, two critical "
-                      "sections) is listed.",
+                      "sections) is listed. F38 (get-then-insert on the registry shared with snapshots; 266 / 324 stale iterations of 3000) was "
+                      "reported by a seeding agent on the unchanged tree, reproduced with its harness (findings/replay/f38) and repaired; the "
+                      "registry-atomic rule reports any non-entry write of that registry.",
     },
     {
         "id": "C05",
@@ -121,7 +123,10 @@ CLAIMS = [
         "level_note": "NOT decided: progress/preservation of the typing rules, the matrix algorithm's theorem (C04), termination of "
                       "normalisation. The lub table (rules/lub_table.json) is the audited reference of today's comparisons; it encodes my "
                       "reading of lub.rs. Known finding F7 (typed holes get stuck) is listed; F11, F27 (refutable binders accepted) and F28 "
-                      "(repeated constructor name) were found by seeding agents on the unchanged tree and repaired.",
+                      "(repeated constructor name), F44 (repeated names in a declaration) were found by seeding agents on the unchanged tree "
+                      "and repaired. Known findings F45-F48 (four independent soundness root causes found by the round-3 agent: forall / pi "
+                      "introductions reuse witness ids, substitution skips inference variables, local seals are not scoped) are reported by "
+                      "the generativity rule, which names each structural cause; their repair changes the checker's core judgments.",
     },
     {
         "id": "C02",
@@ -155,7 +160,9 @@ CLAIMS = [
         "level_note": "NOT decided: completeness in general (only the normalisation steps are pinned), the exact diagnostic, inference. The "
                       "rules are necessary conditions; they do not prove the typing rules. F29 (fix binder never compared with Thk: crash / "
                       "acceptance) and F30 (substitution rewrote a shadowed witness) were found by a seeding agent on the unchanged tree and "
-                      "repaired; the normalisation traces alarm on any semantic edit of normalize.rs's spine code.",
+                      "repaired, as were F40-F43 of round 3 (crash on a computation as constructor argument, wildcard at a computation type, "
+                      "sealed product given away by the tuple judgment, monadic block ignoring analysis mode), each now guarded by its own "
+                      "rule; the normalisation traces alarm on any semantic edit of normalize.rs's spine code.",
     },
     {
         "id": "C07",
@@ -260,7 +267,10 @@ CLAIMS = [
         "level_note": "NOT decided: idempotence over all starting layouts (Preserve-policy feedback at the other boundaries, blank-line bounds), "
                       "pun/parenthesis canonical forms. Four confirmed non-idempotent inputs remain on the tree and are NOT detected by these "
                       "rules (findings/candidates/C14: mid-line block comment creeping, pun recognised only after parenthesis removal (2), "
-                      "layout(ignore) blank line before `=`); they are documented in DESIGN.md, not suppressed.",
+                      "layout(ignore) blank line before `=`; since round 2 also telescopes merged only after parenthesis removal and a verbatim "
+                      "region re-indented inside a width directive); they are documented in DESIGN.md, not suppressed. Added after the round-2 "
+                      "seeds: the compared / rendered source is the text as read (symbolic value flow), and a width directive's payload is "
+                      "emitted as the pre-rendered text.",
     },
     {
         "id": "C18",
@@ -274,7 +284,9 @@ CLAIMS = [
                       "(F21-F23: accepted programs on which `zydeco build` panics), recorded as known findings.",
         "level_note": "NOT decided: that the validators establish the stated IR invariants, nor that no accepted program violates an audited "
                       "invariant (each is argued from the checker's guarantees, not proved). Emitters are infallible by type. LLVM support "
-                      "is outside ('where supported').",
+                      "is outside ('where supported'). Since round 2 every arm of both lowering passes is pinned by audited traces "
+                      "(rules/golden_lowering.json): they alarm on any semantic edit of sps/lower.rs or sps_low/convert.rs, including a "
+                      "correct one, which then needs re-auditing.",
     },
     {
         "id": "C19",
@@ -289,7 +301,10 @@ CLAIMS = [
         "level_note": "NOT decided: observational equality with the interpreter (no executor for lowered code is available offline: the assembly "
                       "interpreter stops at extern calls), continuation packaging, builtin wiring, product layout. A polymorphic-product "
                       "layout mismatch reported by the seeding agent (findings/candidates/C19/poly.zy: pack <product:2/3> vs unpack "
-                      "<product:2/2>) could only be read off the IR text, not executed; it is documented, not claimed as a finding.",
+                      "<product:2/2>) could only be read off the IR text, not executed. It is now known finding F39: the layout-stability rule "
+                      "names its structural cause (product_arity flattens syntactic product tails and counts abstract tails as one word). "
+                      "Both lowering passes are pinned arm by arm by audited traces (rules/golden_lowering.json), read against the CK machine "
+                      "of C02.",
     },
 ]
 
